@@ -21,10 +21,10 @@
     (materialised through the specification decoder's units) must agree with the implementation; the specification of
     numpy basic indexing used by the theorems (np_dims, np_src, np_lo, np_hi, int_in_range) is compared with numpy itself.
 (d) CONCURRENCY (C02; outside the sequential Coq model): a dataset opened with dask chunks (open_dataset(..., chunks=...)) and
-    loaded with dask's threaded scheduler must give read_volume() as well.  Finding D45 (findings/d45_xarray_dask_race.py):
+    loaded with dask's threaded scheduler must give read_volume() as well.  Finding D51 (findings/d51_xarray_dask_race.py):
     without a lock around the reader call concurrent chunk loads interleave seek/read on the one file handle and return
     wrong samples silently.  While the backend array has no `lock` attribute a mismatch is reported under the finding key
-    D45-xarray-dask-race (KNOWN-FINDING once registered); with the repair applied a mismatch is a plain violation.
+    D51-xarray-dask-race (KNOWN-FINDING once registered); with the repair applied a mismatch is a plain violation.
 """
 import os, sys, json, struct
 sys.path.insert(0, os.path.dirname(os.path.abspath(__file__)))
@@ -538,12 +538,61 @@ def numpy_spec_cases(shape):
             pending.append((term, chk, inp))
 
 
+def foreign_files(d):
+    """files not written by the NumPy route: an irregular SEG-Y survey (missing traces) and the fixtures of every format
+    version / layout in test_data (3D only: the backend does not open 2D files).  Oracle only: a few keys through a fresh
+    dataset and through the raw method against read_volume()"""
+    import glob
+    paths = []
+    n_il, n_xl, ns = rng.choice([5, 6, 9]), rng.choice([6, 7]), rng.choice([30, 41])
+    present = np.ones((n_il, n_xl), dtype=bool)
+    for _ in range(4):
+        present[rng.randrange(n_il), rng.randrange(n_xl)] = False
+    present[2, 3] = True
+    sgy, p = os.path.join(d, 'irr.sgy'), os.path.join(d, 'irr.sgz')
+    mk_segy(sgy, rnd_cube(rng, (n_il, n_xl, ns)), range(1, 1 + n_il), range(10, 10 + n_xl), present=present)
+    write_segy_sgz(sgy, p, bpv=8)
+    paths.append((p, f'irregular segy ({n_il},{n_xl},{ns}) bpv=8'))
+    fx = sorted(glob.glob(os.path.join(REPO, 'test_data', '*.sgz')))
+    for f_ in (fx if thorough else rng.sample(fx, min(5, len(fx)))):
+        paths.append((f_, 'fixture ' + os.path.basename(f_)))
+    for path, label in paths:
+        try:
+            with SgzReader(path) as r:
+                if r.is_2d:
+                    continue
+                V = r.read_volume()
+                shape = (r.n_ilines, r.n_xlines, r.n_samples)
+        except Exception as e:
+            R.notes.append(f'{label} skipped: {type(e).__name__}: {e}')
+            continue
+        R.count('foreign file')
+        for i in range(4):
+            key = rnd_key(shape)
+            want = expected(V, key)
+            inp = {'file': label, 'entry': 'ds.data[key]' if i % 2 else '_raw_indexing_method', 'key': key_text(key)}
+            R.case((label, i, key_text(key)), sample=inp)
+            if i % 2:
+                c = ControlArray(V)
+                want = attempt(lambda: np.asarray(xr.DataArray(indexing.LazilyIndexedArray(c), dims=('il', 'xl', 'z'))[key].values))
+                ds = xr.open_dataset(path, engine=SeismicZfpBackendEntrypoint)
+                try:
+                    got = attempt(lambda: ds.data[key].values)
+                finally:
+                    ds.close()
+            else:
+                with SgzReader(path) as r2:
+                    got = attempt(lambda: SeismicZfpBackendArray(shape, np.float32, r2)._raw_indexing_method(key))
+            if not same(got, want):
+                R.violation('oracle', inp, f'expected {describe(want)} (that selection of read_volume()), the backend gives {describe(got)}')
+
+
 def dask_case(d):
     """(d): chunked, threaded load of a whole variable and of a stepped selection"""
     try:
         import dask
     except ImportError:
-        R.notes.append('dask is not installed: the chunked / threaded load (finding D45) was not exercised')
+        R.notes.append('dask is not installed: the chunked / threaded load (finding D51) was not exercised')
         return
     shape, bpv, bs, chunks = (40, 40, 200), 8, (8, 8, 64), {'il': 8, 'xl': 8, 'z': 64}
     p = os.path.join(d, 'dask.sgz')
@@ -571,9 +620,9 @@ def dask_case(d):
         if wrong:
             msg = f'{wrong} of {reps} chunked loads are not read_volume() ({detail}); no exception was raised'
             if sched == 'threads' and not locked:
-                R.violation('oracle', inp, msg + ' -- the backend array has no lock: finding D45', finding_key='D45-xarray-dask-race')
-                if 'D45-xarray-dask-race' not in R.known:
-                    R.known.append('D45-xarray-dask-race')
+                R.violation('oracle', inp, msg + ' -- the backend array has no lock: finding D51', finding_key='D51-xarray-dask-race')
+                if 'D51-xarray-dask-race' not in R.known:
+                    R.known.append('D51-xarray-dask-race')
             else:
                 R.violation('oracle', inp, msg)
     os.remove(p)
@@ -594,7 +643,7 @@ def main():
         ]
         if not thorough:
             configs = configs[:3] + [rng.choice(configs[3:])]
-        n_raw, n_xr, n_sel = (90, 40, 16) if not thorough else (400, 150, 60)
+        n_raw, n_xr, n_sel = (70, 30, 12) if not thorough else (400, 150, 60)
         for bpv, bs, shapes, il0, xl0, z0 in configs:
             shape = rng.choice(shapes)
             label = f'numpy {shape} bpv={bpv} bs={bs}'
@@ -623,6 +672,7 @@ def main():
             if use_model:
                 numpy_spec_cases(shape)
             os.remove(fc.path)
+        foreign_files(d)
         if a.pid != 'C07':
             dask_case(d)
         if use_model and pending:
